@@ -496,6 +496,7 @@ fn main() {
                 ret_name: "r".into(),
                 props: opts.get("props").map(|s| s.split_whitespace().map(|x| x.to_string()).collect()).unwrap_or_default(),
                 nocanary: true,
+                nodecreases: true,
                 ..Default::default()
             };
             let mut fmaps = maps.clone();
@@ -1194,9 +1195,16 @@ fn emit_fn(
         }
     }
     // R27: lock-guard scope markers -> ghost monitor
-    for g in &d.guards {
+    let mut guard_names: Vec<String> = d.guards.iter().filter(|g| g.as_str() != "*").cloned().collect();
+    for g in &rw.star_guards {
+        if !guard_names.contains(g) {
+            guard_names.push(g.clone());
+        }
+    }
+    for g in &guard_names {
         body.insert(0, format!("    let ghost mut vx_guard_{g}: bool = false; /*vxguard*/"));
     }
+    let guard_prop = d.props.first().cloned().unwrap_or_else(|| "C17".to_string());
     for l in body.iter_mut() {
         let t = l.trim().to_string();
         if let Some(r) = t.strip_prefix("vx_guard_acquired!(") {
@@ -1207,7 +1215,7 @@ fn emit_fn(
             *l = format!("proof {{ vx_guard_{g} = false; }} /*vxguard*/");
         } else if let Some(r) = t.strip_prefix("vx_await_check!(") {
             let g = r.trim_end_matches(");");
-            *l = format!("assert(!vx_guard_{g}); // [C17.no_wait_while_holding_{g}] /*vxguard*/");
+            *l = format!("assert(!vx_guard_{g}); // [{guard_prop}.no_wait_while_holding_{g}] /*vxguard*/");
         }
     }
     // R28: one-slot buffers named by the contract: every store `self.<slot> = Some(..)` carries the obligation that the slot
